@@ -193,6 +193,16 @@ pub fn gen_lim_d(rng: &mut Rng) -> Lim {
     }
 }
 
+/// valid limits OUTSIDE the normal domain: intervals of years to centuries, so that tolerance,
+/// lifetime and TAT arithmetic saturate (the store is asked for a lifetime of i64::MAX ns)
+pub fn gen_lim_extreme(rng: &mut Rng) -> Lim {
+    Lim {
+        b: rng.pick(&[1i64, 2, 3, 5, 1000, i64::MAX]),
+        c: rng.pick(&[1i64, 1, 2, 3]),
+        p: rng.pick(&[2_500_000_000i64, 4_611_686_019, 9_223_372_037, 1 << 40, i64::MAX, 30_000_000_000]),
+    }
+}
+
 pub fn gen_lim_invalid(rng: &mut Rng) -> (Lim, i64) {
     let base = gen_lim_d(rng);
     let bad = [0i64, -1, i64::MIN, -1_000_000_007];
@@ -241,6 +251,8 @@ pub struct HistParams {
     pub invalid_pct: u64,
     pub mixed_pct: u64,
     pub zero_pct: u64,
+    /// percentage of keys of interest that get valid limits outside D (saturating arithmetic)
+    pub extreme_pct: u64,
 }
 
 pub fn pick_base(rng: &mut Rng) -> i64 {
@@ -290,7 +302,9 @@ fn gen_qty(rng: &mut Rng, lim: &Lim, zero_pct: u64) -> i64 {
 /// Generate and execute one history on `sess`.  Keys of interest have fixed limits in D
 /// (unless `mixed_pct` chooses other limits for a request); noise keys are fresh keys.
 pub fn run_history(rng: &mut Rng, sess: &mut Session, hp: &HistParams, out: &mut Out) -> (Vec<Step>, Vec<(String, Lim)>) {
-    let keys: Vec<(String, Lim)> = (0..hp.nkeys).map(|i| (gen_key(rng, i), gen_lim_d(rng))).collect();
+    let keys: Vec<(String, Lim)> = (0..hp.nkeys)
+        .map(|i| (gen_key(rng, i), if rng.below(100) < hp.extreme_pct { gen_lim_extreme(rng) } else { gen_lim_d(rng) }))
+        .collect();
     let mut now = pick_base(rng);
     let mut latest = now;
     let mut steps: Vec<Step> = Vec::with_capacity(hp.steps);
